@@ -378,6 +378,48 @@ pub fn run_wide_ladder_w(geom: Geom, is_set: bool, prefixes: u64, width: u64) ->
     })
 }
 
+/// History independence: what a builder holds must be determined by ITS OWN
+/// cache geometry, fan-out and longest key - not by what earlier builders of
+/// the thread or of the process have seen. On a fresh thread: measure a fixed
+/// small ladder (tiny and default cache), then build - on this thread and on
+/// another one - an input with a 300 000-byte key and 50 distinct nodes of
+/// 256 transitions, then measure the same ladder again.
+pub fn run_history_independence() -> Result<Vec<(String, i64, i64)>, String> {
+    std::thread::spawn(|| -> Result<Vec<(String, i64, i64)>, String> {
+        let measure = || -> Result<Vec<(String, i64)>, String> {
+            let mut v = vec![];
+            for g in [(2usize, 2usize), (10_000, 2)] {
+                let t = run_ladder(g, false, 2_000)?;
+                v.push((format!("heap after new, cache {}x{}", g.0, g.1), t.after_new));
+                v.push((format!("peak live heap, cache {}x{}", g.0, g.1), t.max_live));
+            }
+            Ok(v)
+        };
+        let giant = || -> Result<(), String> {
+            let mut key = vec![b'g'; 300_000];
+            run_history((10_000, 2), 2, 300_001, false, 2, &mut |i, out| {
+                out.clear();
+                out.extend_from_slice(&key);
+                if i == 1 {
+                    out.push(b'h');
+                }
+                7 + i
+            })?;
+            key.clear();
+            run_wide_ladder_w((10_000, 2), false, 50, 256)?;
+            run_wide_ladder_w((2, 2), true, 50, 256)?;
+            Ok(())
+        };
+        let before = measure()?;
+        giant()?;
+        std::thread::spawn(giant).join().map_err(|_| "thread panicked".to_string())??;
+        let after = measure()?;
+        Ok(before.into_iter().zip(after).map(|(b, a)| (b.0, b.1, a.1)).collect())
+    })
+    .join()
+    .map_err(|_| "thread panicked".to_string())?
+}
+
 pub fn run_small(geom: Geom, is_set: bool, kvs: &[Kv]) -> Result<Trace, String> {
     let l = kvs.iter().map(|x| x.0.len()).max().unwrap_or(0);
     let mut firsts = std::collections::BTreeSet::new();
@@ -395,6 +437,15 @@ pub fn run_small(geom: Geom, is_set: bool, kvs: &[Kv]) -> Result<Trace, String> 
 }
 
 pub fn replay(case: &Value) -> Result<String, String> {
+    if case["history_independence"].as_bool() == Some(true) {
+        let rows = run_history_independence()?;
+        for (what, b, a) in &rows {
+            if (a - b).abs() > 16 * 1024 {
+                return Err(format!("{}: {} bytes before, {} after", what, b, a));
+            }
+        }
+        return Ok(format!("{} measurements unchanged", rows.len()));
+    }
     let geom = geom_from(&case["geom"]);
     let is_set = case["set"].as_bool().unwrap();
     if let Some(mode) = case["bulk_mode"].as_u64() {
@@ -417,7 +468,7 @@ pub fn replay(case: &Value) -> Result<String, String> {
 pub fn plan(tier: Tier) -> Plan {
     let mut p = Plan::new("C13", "exploration");
     let thorough = tier.thorough();
-    p.rule = "counting allocator with per-thread counters; the builder streams to a discarding sink (the ladder also to discarding sinks that accept at most 1 / 5 bytes per call, interrupt every other call, or never accept across a 4096-byte boundary). (1) exhaustive: under the tiny cache geometries 1x1, 1x2, 2x2, 3x3 (cache saturated after a handful of inserts, i.e. the regime 'evicting on every miss' is reachable) every subset of U_ab3 as set and map, and every prefix of the sorted universes {a,b}^<=6 and {a,b,c,d}^<=4: after (and at the peak during) EVERY insert and finish the builder's live heap <= B(rows,cols,F,L) = heap_after_new + 2*(cells*(max(4,2F)*24+32) + (L+2)*(max(4,2F)*24+32) + [2(L+2)*80 if L+2>64] + 2L) + 4096, which has no term in the number of keys; after finish everything is freed. (2) finite ladder (not exhaustive): 16-byte keys over {a..d} with irregular gaps and non-shareable values, sets and maps, N in {1e4,1e5,2e5,4e5} (thorough: 1e6,4e6,1e7), geometries 1x1, 2x2, 100x2 and the default 10000x2, two ladders with varying key lengths (alternating 16/28-byte keys; keys that are proper prefixes of their successors), and a wide-node ladder (250..5000 (thorough 100000) distinct nodes of fan-out 40, 100, 256 and of widths cycling through 33..64, the node form with an index table), and the fixed ladder through ONE bulk call (raw/Map/Set extend_iter with an exact size hint and extend_stream, N up to 400000, thorough 2 million; a second, empty bulk call afterwards): peak live <= B for every N and, for geometries with <= 200 cells, |peak(N_{i+1}) - peak(N_i)| <= 1 KiB. non-trivial = histories with >= 8 keys".into();
+    p.rule = "counting allocator with per-thread counters; the builder streams to a discarding sink (the ladder also to discarding sinks that accept at most 1 / 5 bytes per call, interrupt every other call, or never accept across a 4096-byte boundary). (1) exhaustive: under the tiny cache geometries 1x1, 1x2, 2x2, 3x3 (cache saturated after a handful of inserts, i.e. the regime 'evicting on every miss' is reachable) every subset of U_ab3 as set and map, and every prefix of the sorted universes {a,b}^<=6 and {a,b,c,d}^<=4: after (and at the peak during) EVERY insert and finish the builder's live heap <= B(rows,cols,F,L) = heap_after_new + 2*(cells*(max(4,2F)*24+32) + (L+2)*(max(4,2F)*24+32) + [2(L+2)*80 if L+2>64] + 2L) + 4096, which has no term in the number of keys; after finish everything is freed. (2) finite ladder (not exhaustive): 16-byte keys over {a..d} with irregular gaps and non-shareable values, sets and maps, N in {1e4,1e5,2e5,4e5} (thorough: 1e6,4e6,1e7), geometries 1x1, 2x2, 100x2 and the default 10000x2, two ladders with varying key lengths (alternating 16/28-byte keys; keys that are proper prefixes of their successors), and a wide-node ladder (250..5000 (thorough 100000) distinct nodes of fan-out 40, 100, 256 and of widths cycling through 33..64, the node form with an index table), and the fixed ladder through ONE bulk call (raw/Map/Set extend_iter with an exact size hint and extend_stream, N up to 400000, thorough 2 million; a second, empty bulk call afterwards): peak live <= B for every N and, for geometries with <= 200 cells, |peak(N_{i+1}) - peak(N_i)| <= 1 KiB. (3) history independence: heap after new and peak of a fixed ladder, measured on a fresh thread before and after this thread and another one built an input with a 300 000-byte key and nodes of 256 transitions, differ by <= 16 KiB. non-trivial = histories with >= 8 keys".into();
     p.assumptions = vec![
         "'for all N' beyond the ladder is not decided by a bounded exploration; the ladder is a finite family and is reported as such".into(),
         "heap attributable to the builder = sum over its API calls of the change of the thread's live bytes (harness allocations are outside the measured calls)".into(),
@@ -428,6 +479,22 @@ pub fn plan(tier: Tier) -> Plan {
         std::process::exit(2);
     }
     let tiny: Vec<Geom> = vec![(1, 1), (1, 2), (2, 2), (3, 3)];
+    p.units.push(unit("history-independence-(after-builds-with-a-300000-byte-key-and-wide-nodes)", "history independence".into(), move |st, rep| {
+        st.evals += 1;
+        st.states += 4_000 + 2 * 25_600;
+        match run_history_independence() {
+            Ok(rows) => {
+                st.count("history_independence_measurements", rows.len() as u64);
+                st.sample(|| json!({"history_independence": rows.iter().map(|(w, b, a)| json!({"what": w, "before": b, "after": a})).collect::<Vec<_>>()}));
+                for (what, b, a) in rows {
+                    if (a - b).abs() > 16 * 1024 {
+                        rep.violation(format!("history independence: {}", what), format!("{}: {} bytes on a fresh thread, {} bytes for the same input after this thread and another one built an input with a 300000-byte key and nodes of 256 transitions: the heap of a builder depends on what earlier builders have seen", what, b, a), json!({"history_independence": true}));
+                    }
+                }
+            }
+            Err(msg) => rep.violation("history independence".into(), msg, json!({"history_independence": true})),
+        }
+    }));
     {
         let u = u_ab3();
         for (a, b) in ranges(1 << u.keys.len(), 64) {
